@@ -682,6 +682,80 @@ def rule_tile(ctx, rep, rid="R-C05-tile"):
     r.count_override = n
 
 
+def rule_rangeend(ctx, rep, rid="R-C05-rangeend"):
+    """An LSP range is two (line, character) positions.  The end of a label that spans a line break is on a later line: the line of the end
+    position must come from a scan of the label's text that advances on a line break, not be the start's line plus a length."""
+    from vlib.mir import switch_info
+    r = rep.rule(rid, "map_label: the end position of a range has its own line counter, advanced over the line breaks inside the label (a label that spans "
+                      "lines must not end on its start line, past the end of that line)", floor=1, floor_what="ranges built from label offsets")
+    bs = ctx.prog.get("ironplcc::lsp_project::map_label")
+    if not bs:
+        rep.error(rid, "lsp_project::map_label not found")
+        return
+    b = bs[0]
+    ranges = [c for c in b.calls() if (c.callee or "") == "lsp_types::Range::new"]
+    n = 0
+    for rc in sorted(ranges, key=lambda c: (c.loc[0], c.loc[1])):
+        pos = []
+        for a in rc.args[:2]:
+            p = op_place(a)
+            d = b.single_def(p[0]) if p is not None and not p[1] else None
+            pos.append(d[2] if d and d[0] == "call" and (d[2].callee or "") == "lsp_types::Position::new" else None)
+        if None in pos or any(a[0] == "c" for a in pos[0].args + pos[1].args):
+            continue        # the fallback range 0:0-0:0
+        n += 1
+        inst = "map_label|range#%d" % n
+
+        def line_local(pc):
+            p = op_place(pc.args[0])
+            return b.root(p)[0] if p is not None else None
+        ls, le = line_local(pos[0]), line_local(pos[1])
+        # is the end's line variable advanced in a loop body under a character test?
+        adv = False
+        dom = b.dominators()
+        for i, j, st in b.all_stmts():
+            if st[0] == "=" and st[1] == [le, []] and st[2][0] != "use" or (st[0] == "=" and st[1] == [le, []] and st[2][0] == "use" and st[2][1][0] != "c" and i != 0):
+                for d_ in dom.get(i, set()):
+                    si = switch_info(b, d_)
+                    if si and si["kind"] == "int" and any("10" in [str(x) for x in labs] for labs in si["edges"].values()):
+                        adv = True
+                    if si and si["kind"] == "bool" and si["subject"][0] == "bin" and si["subject"][1] == "Eq" and 10 in (panics_int(b, si["subject"][2]), panics_int(b, si["subject"][3])):
+                        adv = True
+        if ls is not None and ls == le:
+            r.finding(inst + "|end-on-start-line", loc_str(b.f, rc.loc), "the end position uses the start's line: a label that contains a line break (a call written over two lines, an "
+                      "unterminated comment) gets an end past the end of its first line - a position that does not exist in the document")
+        elif not adv:
+            r.finding(inst + "|end-line-not-advanced", loc_str(b.f, rc.loc), "the line of the end position is never advanced on a line break inside the label")
+        else:
+            r.ok(inst, loc_str(b.f, rc.loc), "the end has its own line counter, advanced on '\\n'")
+    if not n:
+        rep.error(rid, "no Range::new over computed positions in map_label")
+
+
+def rule_fileidx(ctx, rep, rid="R-C05-fileidx"):
+    """The terminal shows a label in the text of file number N.  N is whatever `SimpleFiles::add` returned for that file: the table
+    file id -> N must store exactly that return value (a counter kept on the side diverges as soon as some file is not added)."""
+    r = rep.rule(rid, "the number stored for a file in handle_diagnostics is the value returned by SimpleFiles::add for that file", floor=2, floor_what="entries of the file number table")
+    bs = ctx.prog.get("ironplcc::cli::handle_diagnostics")
+    if not bs:
+        rep.error(rid, "cli::handle_diagnostics not found")
+        return
+    b = bs[0]
+    k = 0
+    for c in sorted(b.calls(), key=lambda c: (c.loc[0], c.loc[1])):
+        if not (c.callee or "").endswith("HashMap::insert") or "usize" not in (c.ga or "") or len(c.args) < 3:
+            continue
+        k += 1
+        vp = op_place(c.args[2])
+        d = b.single_def(b.root(vp)[0]) if vp is not None else None
+        inst = "handle_diagnostics|files_to_ids.insert#%d" % k
+        if d and d[0] == "call" and "SimpleFiles" in (d[2].callee or "") and (d[2].callee or "").endswith("::add"):
+            r.ok(inst, loc_str(b.f, c.loc), "the id returned by add()")
+        else:
+            r.finding(inst + "|not-the-returned-id", loc_str(b.f, c.loc), "the number stored for the file is not what SimpleFiles::add returned: when a file without problems is skipped the two numberings "
+                      "diverge and a problem is shown in the text of another file")
+
+
 def panics_int(b, op):
     from rules import panics
     return panics._int_const(b, op)
@@ -966,6 +1040,8 @@ def run(ctx, rep):
     rule_linecol(ctx, rep)
     rule_tile(ctx, rep)
     rule_syntaxlabel(ctx, rep)
+    rule_rangeend(ctx, rep)
+    rule_fileidx(ctx, rep)
     from rules.c15 import rule_verbatim
     rule_verbatim(ctx, rep, rid="R-C05-verbatim")
     from rules import c05_blank, c05_joinorder
